@@ -1,9 +1,13 @@
 #!/bin/bash
-# usage: ./run.sh <Cxx> <quick|thorough> [extra vcheck args]
+# usage: ./run.sh <Cxx> <quick|thorough> [extra args]
 # Rebuilds the check binary from /repo's current working tree (with the verif overlay) and runs the check.
 set -u
 cd "$(dirname "$0")"
 export GOFLAGS=-mod=mod GOPROXY=off GOSUMDB=off GOTOOLCHAIN=local
 id="$1"; tier="${2:-quick}"; shift; shift || true
-./build.sh || { echo "INFRASTRUCTURE: build failed" >&2; exit 2; }
-exec ./bin/vcheck "$id" --tier "$tier" "$@"
+case "$id" in
+  C08|C09) bin=vsched ;;
+  *) bin=vcheck ;;
+esac
+./build.sh $bin || { echo "INFRASTRUCTURE: build failed" >&2; exit 2; }
+exec ./bin/$bin "$id" --tier "$tier" "$@"
